@@ -205,6 +205,25 @@ def reading(feature, seq):
     return out
 
 
+def closed_loop(before, seq):
+    """Is the feature one closed loop: its parts, read in order, walk once
+    round the whole circle on one strand (so its start point is arbitrary)?"""
+    flat = [x for part, whole in before for x in part]
+    n = len(seq)
+    if len(flat) != n or n == 0 or any(c.startswith("^") for c, s in flat):
+        return False
+    if len(set(s for c, s in flat)) != 1:
+        return False
+    pos = {c: i for i, c in enumerate(seq)}
+    if len(pos) != n:
+        return False          # letters not distinct: cannot tell
+    step = -1 if flat[0][1] == -1 else 1
+    idx = [pos.get(c) for c, s in flat]
+    if any(i is None for i in idx):
+        return False
+    return all((idx[(k + 1) % n] - idx[k]) % n == step % n for k in range(n))
+
+
 def same_reading(before, after_flat, n):
     """Does the flattened reading ``after_flat`` spell the parts of ``before``
     in order?  Splitting a part into consecutive pieces (in reading order) does
